@@ -655,8 +655,17 @@ def exact_list_len(ex, v):
         if c is None:
             return None
         return k.nf * c
-    if getattr(v, "slice_of", None) is not None or getattr(v, "parts", None) is not None:
+    if getattr(v, "slice_of", None) is not None:
         return None
+    if getattr(v, "parts", None) is not None:
+        # a + b + c: the lengths add up
+        tot = NF.const(0)
+        for q in v.parts:
+            ln = exact_list_len(ex, q) if isinstance(q, (ListV, TupleV)) else None
+            if ln is None:
+                return None
+            tot = tot + ln
+        return tot
     return app("listlen", v.lid, getattr(v, "version", 0))
 
 
@@ -1373,9 +1382,19 @@ def _np_append(ex, args, kwargs, node):
         v = _arr(ex, x, node)
         if v.shape is not None and len(v.shape) == 0:
             v = Num(v.nf, (NF.const(1),), v.dtype, "ndarray")
-        elif v.shape is not None and len(v.shape) != 1:
-            raise Undecided("np.append of operands that are not 1-D", node)
         parts.append(v)
+    if any(v.shape is not None and len(v.shape) != 1 for v in parts):
+        # operands with more dimensions are FLATTENED first: the result is one long vector, not a stack of rows
+        if any(v.shape is None for v in parts):
+            raise Undecided("np.append of operands of unknown shape", node)
+        size = NF.const(0)
+        for v in parts:
+            sz = NF.const(1)
+            for d in v.shape:
+                sz = sz * lift(d)
+            size = size + sz
+        ex.emit("flattened", node, operands=parts)
+        return ex.mk("ravelcat", tuple(ex.as_nf(v, node) for v in parts), shape=(size,), dtype="float" if any(v.dtype == "float" for v in parts) else parts[0].dtype)
     return _np_concatenate(ex, [TupleV(parts)], {}, node)
 
 
